@@ -132,7 +132,7 @@ func (s *Struct) Assign(gen Generator, ctx *MethodContext, assignTo *AssignTo, s
 		stmt = append(stmt, jen.Id("_").Op("=").Add(sourceID.Code.Clone()))
 	}
 
-	for name := range definedFields {
+	for _, name := range sortedKeys(definedFields) {
 		return nil, NewError(fmt.Sprintf("Field %q does not exist.\nRemove or adjust field settings referencing this field.", name)).Lift(&Path{
 			Prefix:     ".",
 			TargetID:   name,
